@@ -14,23 +14,23 @@ open Std
 namespace Jamm
 
 section
-variable (p : Params) (pagesize hdr leafHdr branchHdr bmSize : Nat)
+variable {E : Type} (p : Params) (pagesize hdr leafHdr branchHdr : Nat) (esz : Bytes × E → Nat)
 
 theorem pieceL_eq (key : Bytes) :
-    (fun c : List (Bytes × Ent) => (firstKeyOr key c, Tree.leaf 0 c)) = pieceL key := by
+    (fun c : List (Bytes × E) => (firstKeyOr key c, Tree.leaf 0 c)) = pieceL key := by
   funext c; cases c with
   | nil => rfl
   | cons a r => obtain ⟨k, e⟩ := a; rfl
 
 theorem pieceB_eq (key : Bytes) :
-    (fun c : List (Bytes × Tree Bytes Ent) => (firstKeyOr key c, Tree.branch 0 (Forest.ofList c))) =
+    (fun c : List (Bytes × Tree Bytes E) => (firstKeyOr key c, Tree.branch 0 (Forest.ofList c))) =
       pieceB key := by
   funext c; cases c with
   | nil => rfl
   | cons a r => obtain ⟨k, e⟩ := a; rfl
 
-theorem spillT_ne_nil (key : Bytes) (t : Tree Bytes Ent) :
-    spillT p pagesize hdr leafHdr branchHdr bmSize key t ≠ [] := by
+theorem spillT_ne_nil (key : Bytes) (t : Tree Bytes E) :
+    spillT p pagesize hdr leafHdr branchHdr esz key t ≠ [] := by
   cases t with
   | leaf pid es =>
     simp only [spillT]
@@ -44,8 +44,8 @@ theorem spillT_ne_nil (key : Bytes) (t : Tree Bytes Ent) :
     · simpa using cutAt_ne_nil_sp _ _ _
 
 mutual
-theorem spillT_uniform_aux (key : Bytes) (t : Tree Bytes Ent) (d : Nat) (hu : UniformT d t) :
-    ∀ q ∈ spillT p pagesize hdr leafHdr branchHdr bmSize key t, UniformT d q.2 := by
+theorem spillT_uniform_aux (key : Bytes) (t : Tree Bytes E) (d : Nat) (hu : UniformT d t) :
+    ∀ q ∈ spillT p pagesize hdr leafHdr branchHdr esz key t, UniformT d q.2 := by
   match t with
   | .leaf pid es =>
     cases hu
@@ -71,8 +71,8 @@ theorem spillT_uniform_aux (key : Bytes) (t : Tree Bytes Ent) (d : Nat) (hu : Un
       refine UniformT.branch _ _ _ (uniformF_ofList d' c ?_)
       intro e he
       exact spillF_uniform kids d' hk e (mem_of_mem_cutAt hc he)
-theorem spillF_uniform (f : Forest Bytes Ent) (d : Nat) (hu : UniformF d f) :
-    ∀ q ∈ spillF p pagesize hdr leafHdr branchHdr bmSize f, UniformT d q.2 := by
+theorem spillF_uniform (f : Forest Bytes E) (d : Nat) (hu : UniformF d f) :
+    ∀ q ∈ spillF p pagesize hdr leafHdr branchHdr esz f, UniformT d q.2 := by
   match f with
   | .nil => simp [spillF]
   | .cons k t rest =>
@@ -85,17 +85,17 @@ theorem spillF_uniform (f : Forest Bytes Ent) (d : Nat) (hu : UniformF d f) :
 end
 
 /-- S1: every piece has the depth of the node it was cut from -/
-theorem spillT_uniform (key : Bytes) (t : Tree Bytes Ent) (d : Nat) (hu : UniformT d t) :
-    ∀ q ∈ spillT p pagesize hdr leafHdr branchHdr bmSize key t, UniformT d q.2 :=
-  spillT_uniform_aux p pagesize hdr leafHdr branchHdr bmSize key t d hu
+theorem spillT_uniform (key : Bytes) (t : Tree Bytes E) (d : Nat) (hu : UniformT d t) :
+    ∀ q ∈ spillT p pagesize hdr leafHdr branchHdr esz key t, UniformT d q.2 :=
+  spillT_uniform_aux p pagesize hdr leafHdr branchHdr esz key t d hu
 
 /-- S2: … so the rewritten tree has uniform depth -/
-theorem spillRoot_uniform (fuel : Nat) (t : Tree Bytes Ent) (d : Nat) (hu : UniformT d t) :
-    ∃ d', UniformT d' (spillRoot p pagesize hdr leafHdr branchHdr bmSize fuel t) := by
+theorem spillRoot_uniform (fuel : Nat) (t : Tree Bytes E) (d : Nat) (hu : UniformT d t) :
+    ∃ d', UniformT d' (spillRoot p pagesize hdr leafHdr branchHdr esz fuel t) := by
   induction fuel generalizing t d with
   | zero => exact ⟨d, hu⟩
   | succ fuel ih =>
-    have hs := spillT_uniform p pagesize hdr leafHdr branchHdr bmSize [] t d hu
+    have hs := spillT_uniform p pagesize hdr leafHdr branchHdr esz [] t d hu
     simp only [spillRoot]
     split
     · exact ⟨d, hu⟩
@@ -105,9 +105,9 @@ theorem spillRoot_uniform (fuel : Nat) (t : Tree Bytes Ent) (d : Nat) (hu : Unif
     · exact ih _ (d + 1) (UniformT.branch d 1 _ (uniformF_ofList d _ hs))
 
 mutual
-theorem spillT_wfs_aux (hp : p.Valid) (key : Bytes) (lo hi : Option Bytes) (t : Tree Bytes Ent)
+theorem spillT_wfs_aux (hp : p.Valid) (key : Bytes) (lo hi : Option Bytes) (t : Tree Bytes E)
     (hlo : lo = none ∨ lo = some key) (hhi : inHi hi key) (hw : WFS lo hi t) :
-    WFS lo hi (.branch 0 (Forest.ofList (spillT p pagesize hdr leafHdr branchHdr bmSize key t))) := by
+    WFS lo hi (.branch 0 (Forest.ofList (spillT p pagesize hdr leafHdr branchHdr esz key t))) := by
   have hlok : inLo lo key := by
     rcases hlo with rfl | rfl
     · trivial
@@ -124,7 +124,7 @@ theorem spillT_wfs_aux (hp : p.Valid) (key : Bytes) (lo hi : Option Bytes) (t : 
     · rw [pieceL_eq]
       cases hw with
       | leaf _ _ _ _ hs hb =>
-        rcases split_chunks_cases p hp pagesize hdr leafHdr (es.map (entSize bmSize)) es (by simp)
+        rcases split_chunks_cases p hp pagesize hdr leafHdr (es.map (esz)) es (by simp)
           with ⟨rfl, hc⟩ | hne
         · rw [hc]
           simp only [List.map_cons, List.map_nil, pieceL, Forest.ofList]
@@ -141,8 +141,8 @@ theorem spillT_wfs_aux (hp : p.Valid) (key : Bytes) (lo hi : Option Bytes) (t : 
       rw [hsep]; exact hw
     · rw [pieceB_eq]
       rcases split_chunks_cases p hp pagesize hdr branchHdr
-          ((spillF p pagesize hdr leafHdr branchHdr bmSize kids).map (fun e => e.1.length))
-          (spillF p pagesize hdr leafHdr branchHdr bmSize kids) (by simp)
+          ((spillF p pagesize hdr leafHdr branchHdr esz kids).map (fun e => e.1.length))
+          (spillF p pagesize hdr leafHdr branchHdr esz kids) (by simp)
         with ⟨_, hc⟩ | hne
       · rw [hc]
         simp only [List.map_cons, List.map_nil, pieceB, Forest.ofList]
@@ -161,11 +161,11 @@ theorem spillT_wfs_aux (hp : p.Valid) (key : Bytes) (lo hi : Option Bytes) (t : 
               | none => exact Or.inl rfl
               | some l => exact Or.inr rfl
             exact wfs_of_sepLo h1 (spillF_wfs hp (sepLo lo k) hi (.cons k t rest) hl h2 h3)
-theorem spillF_wfs (hp : p.Valid) (lo hi : Option Bytes) (f : Forest Bytes Ent) :
+theorem spillF_wfs (hp : p.Valid) (lo hi : Option Bytes) (f : Forest Bytes E) :
     match f with
     | .nil => True
     | .cons k t rest => (lo = none ∨ lo = some k) → inHi hi k → WFFS lo hi k t rest →
-      WFS lo hi (.branch 0 (Forest.ofList (spillF p pagesize hdr leafHdr branchHdr bmSize (.cons k t rest)))) := by
+      WFS lo hi (.branch 0 (Forest.ofList (spillF p pagesize hdr leafHdr branchHdr esz (.cons k t rest)))) := by
   match f with
   | .nil => trivial
   | .cons k t .nil =>
@@ -181,29 +181,29 @@ theorem spillF_wfs (hp : p.Valid) (lo hi : Option Bytes) (f : Forest Bytes Ent) 
       have hA := spillT_wfs_aux hp k lo (some k') t hlo hk ht
       have hB := spillF_wfs hp (some k') hi (.cons k' t' rest') (Or.inr rfl) hhi' hr
       rw [spillF]
-      refine wfs_branch_append (spillT_ne_nil p pagesize hdr leafHdr branchHdr bmSize k t) ?_ hA hB
+      refine wfs_branch_append (spillT_ne_nil p pagesize hdr leafHdr branchHdr esz k t) ?_ hA hB
       rw [spillF]
       intro h
-      exact spillT_ne_nil p pagesize hdr leafHdr branchHdr bmSize k' t' (List.append_eq_nil_iff.mp h).1
+      exact spillT_ne_nil p pagesize hdr leafHdr branchHdr esz k' t' (List.append_eq_nil_iff.mp h).1
 end
 
 /-- S3: the pieces of a node, side by side, are a well-formed branch for the node's bounds -/
-theorem spillT_wfs (hp : p.Valid) (key : Bytes) (lo hi : Option Bytes) (t : Tree Bytes Ent) (d : Nat)
+theorem spillT_wfs (hp : p.Valid) (key : Bytes) (lo hi : Option Bytes) (t : Tree Bytes E) (d : Nat)
     (hlo : lo = none ∨ lo = some key) (hhi : inHi hi key)
     (hw : WFS lo hi t) (hu : UniformT d t) :
-    WFS lo hi (.branch 0 (Forest.ofList (spillT p pagesize hdr leafHdr branchHdr bmSize key t))) := by
+    WFS lo hi (.branch 0 (Forest.ofList (spillT p pagesize hdr leafHdr branchHdr esz key t))) := by
   have _ := hu   -- uniform depth is not needed for the separator invariant
-  exact spillT_wfs_aux p pagesize hdr leafHdr branchHdr bmSize hp key lo hi t hlo hhi hw
+  exact spillT_wfs_aux p pagesize hdr leafHdr branchHdr esz hp key lo hi t hlo hhi hw
 
 /-- S4: spilling the root keeps the separator invariant -/
-theorem spillRoot_wfs (hp : p.Valid) (fuel : Nat) (t : Tree Bytes Ent) (d : Nat)
+theorem spillRoot_wfs (hp : p.Valid) (fuel : Nat) (t : Tree Bytes E) (d : Nat)
     (hw : WFS none none t) (hu : UniformT d t) :
-    WFS none none (spillRoot p pagesize hdr leafHdr branchHdr bmSize fuel t) := by
+    WFS none none (spillRoot p pagesize hdr leafHdr branchHdr esz fuel t) := by
   induction fuel generalizing t d with
   | zero => exact hw
   | succ fuel ih =>
-    have hs := spillT_uniform p pagesize hdr leafHdr branchHdr bmSize [] t d hu
-    have hws := spillT_wfs_aux p pagesize hdr leafHdr branchHdr bmSize hp [] none none t (Or.inl rfl) trivial hw
+    have hs := spillT_uniform p pagesize hdr leafHdr branchHdr esz [] t d hu
+    have hws := spillT_wfs_aux p pagesize hdr leafHdr branchHdr esz hp [] none none t (Or.inl rfl) trivial hw
     simp only [spillRoot]
     split
     · exact hw
